@@ -617,6 +617,19 @@ func (h *httpServerHandler) handleGet(ctx context.Context, w http.ResponseWriter
 	h.getSSEConnections[session.GetID()] = conn
 	h.getSSEConnectionsLock.Unlock()
 
+	// The session may have been terminated (DELETE) while this stream was being set up; its
+	// clean-up ran before the stream was registered and cannot have closed it. Refuse the stream.
+	if _, alive := h.sessionManager.getSession(session.GetID()); !alive {
+		h.getSSEConnectionsLock.Lock()
+		if current, ok := h.getSSEConnections[session.GetID()]; ok && current == conn {
+			delete(h.getSSEConnections, session.GetID())
+		}
+		h.getSSEConnectionsLock.Unlock()
+		w.Header().Del(httputil.SessionIDHeader)
+		http.Error(w, "Session not found", http.StatusNotFound)
+		return
+	}
+
 	// Send the response headers only now that the stream is registered: once the client has seen
 	// them, everything addressed to the session must already be routed to this stream.
 	conn.writeLock.Lock()
